@@ -254,6 +254,8 @@ const JSON5_TEXTS: &[&str] = &[
     "\"\\ud83d\\ude00\"",
     "{\"\\u0000\": 1}",
     "1e400",
+    "[-1e400, 1e-400, -0, 0x7fffffffffffffff, 9223372036854775808, 18446744073709551615]",
+    "{ big: Infinity, small: -Infinity, nan: NaN, list: [1, Infinity, 3] }",
     "{$key: 1, _k: 2, k9: 3}",
 ];
 
@@ -306,9 +308,11 @@ fn convert(doc: &Doc) -> Result<Option<(String, Data)>, String> {
     // exactly the three lines of `darklua convert`
     let r = guarded(|| -> Result<Option<(String, Data)>, String> {
         Ok(match doc {
-            Doc::Json(t) => match json5::from_str::<serde_json::Value>(t) {
-                Ok(v) => Some((darklua_core::convert_data(&v).map_err(|e| e.to_string())?, from_json(&v))),
-                Err(_) => None,
+            // the data is what the JSON5 reader yields when nothing is lost on the way: read into a value type that keeps
+            // non-finite numbers (`serde_json::Value` turns them into null); darklua is called the way `convert` calls it
+            Doc::Json(t) => match (json5::from_str::<darklua_core::Json5Value>(t), json5::from_str::<serde_yaml::Value>(t)) {
+                (Ok(v), Ok(reference)) => Some((darklua_core::convert_data(&v).map_err(|e| e.to_string())?, from_yaml(&reference))),
+                _ => None,
             },
             Doc::Yaml(t) => match serde_yaml::from_str::<serde_yaml::Value>(t) {
                 Ok(v) => Some((darklua_core::convert_data(&v).map_err(|e| e.to_string())?, from_yaml(&v))),
